@@ -8,10 +8,14 @@
    (code points); the schema's own names are interned and tied to their text by
    the tables of the [wsdl] record.  Definitions only.
 
+   An element with an inline (anonymous) complexType is an element whose type
+   lives in a namespace id that has no URI in [w_uris] (so no spelling can name
+   it) and is called like the element (the class name suds gives the object).
+
    Not modelled (never generated, see harness/c03.py): ElementQuery's deep
    search for local element names spelled without a path, simpleContent /
-   mixed types, element refs, anonymous types, a path separator other than '.',
-   dangling type references (treated like built-ins). *)
+   mixed types, element refs, a path separator other than '.', dangling type
+   references (treated like built-ins). *)
 From SV Require Import Lib.Base Fam.Schema Gen.C03Tables.
 
 (* ------------------------------------------------------------------ *)
